@@ -103,6 +103,7 @@ func execute(x *explore.Exec, sc *Scn) *result {
 			nw.Handle(addr, func(client net.Addr) (net.Conn, error) {
 				cEnd, sEnd := vnet.Pipe(fmt.Sprintf("px-up%d", p), fmt.Sprintf("up%d", p), client, vnet.TCP("10.0.0.10", 80))
 				cEnd.Menu, sEnd.Menu = hm.StdMenu(1), hm.StdMenu(1)
+				cEnd.EOFWithData = true // ... and so may an upstream's
 				rec.clientEnd = cEnd
 				vsched.GoNamed(fmt.Sprintf("upstream%d", p), func() {
 					// reader half
@@ -180,6 +181,7 @@ func execute(x *explore.Exec, sc *Scn) *result {
 		}
 		cl, sv := vnet.Pipe("client", "server", vnet.TCP("192.0.2.9", 40000), vnet.TCP("10.0.0.1", 443))
 		cl.Menu, sv.Menu = hm.StdMenu(1), hm.StdMenu(1, chunk-1)
+		sv.EOFWithData = true // the client's last bytes may arrive together with end-of-stream
 		res.server = sv
 		vsched.GoNamed("handle", func() {
 			layer4.VerifHandle(srv, sv)
@@ -434,7 +436,7 @@ func main() {
 	runner.Main(&runner.Harness{
 		ID:    "C03",
 		Level: "model_checking",
-		Rule:  "client->upstream and upstream->client payloads {0,1,3,chunk+1 bytes, position-coded} in 1-2 writes x who finishes first {client half-closes, upstreams half-close, both, client aborts, upstream aborts mid-stream} x 1 or 2 peers per upstream (and a first attempt against a two-peer upstream whose second peer refuses, followed by a retry) x upstream transport with/without half-close x matcher in front of the proxy needing 1 or 3 bytes (so the stream starts in the prefetch buffer), plus a client stream of limit+chunk+5 bytes behind a matcher needing limit-3 bytes (the matching buffer overshoots the limit under any unaligned read); every interleaving of the handler's goroutines, client and upstream threads, every short read, within the joint deviation budget (delay bounding: every scheduling choice other than 'continue, else lowest thread id' costs one; 3 for the 3-byte/1-byte single-peer exchange of every close order and transport, 2 otherwise; +1 and a wider core in thorough)",
+		Rule:  "client->upstream and upstream->client payloads {0,1,3,chunk+1 bytes, position-coded} in 1-2 writes x who finishes first {client half-closes, upstreams half-close, both, client aborts, upstream aborts mid-stream} x 1 or 2 peers per upstream (and a first attempt against a two-peer upstream whose second peer refuses, followed by a retry) x upstream transport with/without half-close x matcher in front of the proxy needing 1 or 3 bytes (so the stream starts in the prefetch buffer), plus a client stream of limit+chunk+5 bytes behind a matcher needing limit-3 bytes (the matching buffer overshoots the limit under any unaligned read); every interleaving of the handler's goroutines, client and upstream threads, every short read, the last bytes of either side alone or together with end-of-stream, within the joint deviation budget (delay bounding: every scheduling choice other than 'continue, else lowest thread id' costs one; 3 for the 3-byte/1-byte single-peer exchange of every close order and transport, 2 otherwise; +1 and a wider core in thorough)",
 		Assumptions: []string{
 			"payload sizes up to one prefetch chunk + 1, not MiB; kernel socket buffers are unbounded in the virtual network",
 			"TLS-terminated downstream is covered for byte-exactness by C01, not here",
